@@ -867,24 +867,24 @@ pub fn sched_child(h_idx: usize, bound: usize, child: Option<usize>, stop_at: Op
         }
         Some(ci) => {
             if ci < children.len() {
-                let mut stats = ExploreStats { executions: 0, max_points: 0, capped: false };
+                let mut stats = ExploreStats { executions: 0, max_points: 0, capped: false, abort: false };
                 let mut n: u64 = 0;
                 let mut stop = false;
                 sched::explore(&make, children[ci].clone(), bound, stop_at.map(|s| s + 1).unwrap_or(cap), &mut stats, &mut |x: &Execution<Vec<String>>, full| {
                     if stop {
-                        return;
+                        return false;
                     }
                     if x.deadlock {
                         // a real deadlock: every thread waits in a lock / once-cell of the code under test
                         deadlock_viol = Some(json!({"exec": n, "choices": full.iter().map(|c| c.0).collect::<Vec<_>>(), "observed": "DEADLOCK: every live thread waits in a synchronisation primitive of the code under test", "alone": format!("{:?}", baseline)}));
                         deadlocked = true;
                         stop = true;
-                        return;
+                        return false;
                     }
                     if let Some(e) = &x.error {
                         error = Some(e.clone());
                         stop = true;
-                        return;
+                        return false;
                     }
                     if x.infeasible {
                         blocked_execs += 1;
@@ -892,7 +892,7 @@ pub fn sched_child(h_idx: usize, bound: usize, child: Option<usize>, stop_at: Op
                             stop = true;
                             hit_block_cap = true;
                         }
-                        return;
+                        return !stop;
                     }
                     if x.forced > 0 {
                         blocked_execs += 1;
@@ -904,6 +904,7 @@ pub fn sched_child(h_idx: usize, bound: usize, child: Option<usize>, stop_at: Op
                     }
                     examine(x, full, n);
                     n += 1;
+                    !stop
                 });
                 executions = stats.executions;
                 max_points = stats.max_points;
@@ -939,6 +940,7 @@ fn run_sched_child(h_idx: usize, bound: usize, child: Option<usize>, stop_at: Op
     let mut cmd = Command::new(exe);
     cmd.args(["sched", &h_idx.to_string(), &bound.to_string(), &child.map(|c| c.to_string()).unwrap_or_else(|| "root".into()), &stop_at.map(|s| s.to_string()).unwrap_or_else(|| "-".into()), &cap.to_string()]);
     let out = cmd.output().map_err(|e| e.to_string())?;
+    crate::watch::beat();
     if !out.status.success() {
         return Err(format!("schedule exploration subprocess failed: {:?} {}", out.status, String::from_utf8_lossy(&out.stderr).lines().last().unwrap_or("")));
     }
@@ -978,7 +980,24 @@ fn explore_harness(hi: usize, h: &Harness, bound: usize, cap: u64) -> Result<Acc
             }
             let nchildren = root["children"].as_u64().unwrap_or(0) as usize;
             let jobs: Vec<Option<usize>> = std::iter::once(None).chain((0..nchildren).map(Some)).collect();
-            let results: Vec<(Option<usize>, Result<Value, String>)> = jobs.par_iter().map(|c| (*c, if c.is_none() { Ok(root.clone()) } else { run_sched_child(hi, b, *c, None, cap) })).collect();
+            // jobs run in chunks: when most jobs of a chunk stop because threads keep blocking in a primitive the
+            // scheduler does not model (every such execution costs a stall period), the harness is given up (capped)
+            let mut results: Vec<(Option<usize>, Result<Value, String>)> = vec![];
+            let mut gave_up = false;
+            for chunk in jobs.chunks(16) {
+                let part: Vec<(Option<usize>, Result<Value, String>)> = chunk.par_iter().map(|c| (*c, if c.is_none() { Ok(root.clone()) } else { run_sched_child(hi, b, *c, None, cap) })).collect();
+                let blocked_jobs = part.iter().filter(|(_, r)| r.as_ref().map_or(false, |v| v["blocked_executions"].as_u64().unwrap_or(0) >= 12)).count();
+                let found = part.iter().any(|(_, r)| r.as_ref().map_or(false, |v| !v["violation"].is_null()));
+                let n = part.len();
+                results.extend(part);
+                if found {
+                    break;
+                }
+                if blocked_jobs * 2 >= n && n > 1 {
+                    gave_up = true;
+                    break;
+                }
+            }
             let mut executions = 0u64;
             let mut max_points = 0u64;
             let mut capped = false;
@@ -991,7 +1010,7 @@ fn explore_harness(hi: usize, h: &Harness, bound: usize, cap: u64) -> Result<Acc
                 }
                 executions += r["executions"].as_u64().unwrap_or(0);
                 max_points = max_points.max(r["max_points"].as_u64().unwrap_or(0));
-                capped |= r["capped"].as_bool().unwrap_or(false);
+                capped |= r["capped"].as_bool().unwrap_or(false) || gave_up;
                 for o in r["outcomes"].as_array().cloned().unwrap_or_default() {
                     outcomes.insert(o.as_str().unwrap_or("").to_string());
                 }
@@ -1015,9 +1034,14 @@ fn explore_harness(hi: usize, h: &Harness, bound: usize, cap: u64) -> Result<Acc
             if let Some((c, v)) = viol {
                 // reproduce in two more fresh processes before trusting it
                 let n = v["exec"].as_u64().unwrap_or(0);
-                let r1 = run_sched_child(hi, b, c, Some(n), cap)?;
-                let r2 = run_sched_child(hi, b, c, Some(n), cap)?;
-                if r1["violation"].is_null() || r1["violation"] != r2["violation"] {
+                let dl0 = v["observed"].as_str().map_or(false, |o| o.starts_with("DEADLOCK"));
+                let r1 = run_sched_child(hi, b, c, if dl0 { None } else { Some(n) }, cap)?;
+                let r2 = run_sched_child(hi, b, c, if dl0 { None } else { Some(n) }, cap)?;
+                // a deadlock is reached through executions in which threads were set aside after stall periods: which
+                // execution number hits it depends on timing, the verdict does not
+                let is_deadlock = |x: &Value| x["observed"].as_str().map_or(false, |o| o.starts_with("DEADLOCK"));
+                let both_deadlock = is_deadlock(&v) && is_deadlock(&r1["violation"]) && is_deadlock(&r2["violation"]);
+                if !both_deadlock && (r1["violation"].is_null() || r1["violation"] != r2["violation"]) {
                     return Err(format!("failing schedule does not reproduce deterministically in harness {:?}: {} / {} / {}", h.name, v, r1["violation"], r2["violation"]));
                 }
                 total.viol(
@@ -1025,7 +1049,7 @@ fn explore_harness(hi: usize, h: &Harness, bound: usize, cap: u64) -> Result<Acc
                         "harness {:?}: with at most {} preemptions, execution #{} of subtree {:?} (schedule {}) makes the threads observe {} but evaluated alone the operations give {}",
                         h.name, b, n, c, v["choices"], v["observed"], v["alone"]
                     ),
-                    json!({"kind": "schedule", "class": "schedule", "harness_index": hi, "harness": h.name, "bound": b, "subtree": c, "exec": n, "choices": v["choices"]}),
+                    json!({"kind": "schedule", "class": "schedule", "harness_index": hi, "harness": h.name, "bound": b, "subtree": c, "exec": n, "choices": v["choices"], "deadlock": is_deadlock(&v)}),
                 );
                 found = true;
                 break;
@@ -1043,13 +1067,23 @@ pub fn replay_schedule(case: &Value, _run: &Run) -> Acc {
     let b = case["bound"].as_u64().unwrap_or(2) as usize;
     let c = case["subtree"].as_u64().map(|x| x as usize);
     let n = case["exec"].as_u64().unwrap_or(0);
-    let r1 = run_sched_child(hi, b, c, Some(n), u64::MAX / 2);
-    let r2 = run_sched_child(hi, b, c, Some(n), u64::MAX / 2);
+    let deadlock = case["deadlock"].as_bool().unwrap_or(false);
+    // a deadlock is found again by exploring the same subtree (which execution hits it depends on timing)
+    let stop = if deadlock { None } else { Some(n) };
+    let r1 = run_sched_child(hi, b, c, stop, if deadlock { 200_000 } else { u64::MAX / 2 });
+    let r2 = run_sched_child(hi, b, c, stop, if deadlock { 200_000 } else { u64::MAX / 2 });
     match (r1, r2) {
         (Ok(a), Ok(b2)) => {
             println!("harness  : {}", case["harness"]);
             println!("run 1    : {}", a["violation"]);
             println!("run 2    : {}", b2["violation"]);
+            let dl = |x: &Value| x["violation"]["observed"].as_str().map_or(false, |o| o.starts_with("DEADLOCK"));
+            if deadlock {
+                if dl(&a) && dl(&b2) {
+                    acc.viol(format!("harness {}: deadlock again (schedule {})", case["harness"], a["violation"]["choices"]), case.clone());
+                }
+                return acc;
+            }
             if a["violation"] != b2["violation"] {
                 eprintln!("replay is not deterministic");
                 std::process::exit(2);
@@ -1305,6 +1339,24 @@ pub fn replay_cold_warm(case: &Value, _run: &Run) -> Acc {
 pub fn run(tier: &str) -> i32 {
     let run = Run::new("C12", tier);
     let th = run.thorough();
+    // the schedule exploration comes first: if a change makes threads block each other for good, the explorer reports
+    // the schedule, whereas the free-running multi-threaded parts below would just hang (stall watchdog)
+    let t0 = std::time::Instant::now();
+    let c = match part_schedules(th) {
+        Ok(c) => c,
+        Err(e) => {
+            eprintln!("MACHINERY: {}", e);
+            return 2;
+        }
+    };
+    eprintln!("  schedules: {} executions, {:.1}s", c.evals, t0.elapsed().as_secs_f64());
+    for o in &c.outcomes {
+        eprintln!("    {}", o);
+    }
+    if c.viol_count > 0 {
+        eprintln!("  the schedule exploration found violations: the remaining parts are skipped");
+        return run.finish(c, "schedule exploration only (it found violations; the other parts were skipped)", &[], true, json!({}));
+    }
     let t0 = std::time::Instant::now();
     let a = part_entry_points(th);
     eprintln!("  entry points: {} cases, {:.1}s", a.evals, t0.elapsed().as_secs_f64());
@@ -1335,18 +1387,6 @@ pub fn run(tier: &str) -> i32 {
     };
     eprintln!("  first call of a fresh process vs late call: {} queries, {:.1}s", b3.evals, t0.elapsed().as_secs_f64());
     let b = b.merge(b3);
-    let t0 = std::time::Instant::now();
-    let c = match part_schedules(th) {
-        Ok(c) => c,
-        Err(e) => {
-            eprintln!("MACHINERY: {}", e);
-            return 2;
-        }
-    };
-    eprintln!("  schedules: {} executions, {:.1}s", c.evals, t0.elapsed().as_secs_f64());
-    for o in &c.outcomes {
-        eprintln!("    {}", o);
-    }
     let t0 = std::time::Instant::now();
     let d = part_free_running(th);
     eprintln!("  supplementary free-running pass (sampled, not coverage): {:.1}s", t0.elapsed().as_secs_f64());
